@@ -17,7 +17,8 @@ def templates(s, rnd, tier):
             out.append(("low", "index_scan", dict(obj=tname), "index_scan/" + tname))
             if ents:
                 e = tdb.entries[rnd.choice(ents) - 1]["vals"]
-                out.append(("hl", "pk_select", dict(table=tname, key=list(e[:2])), "pk_select/" + tname))
+                npk = sum(1 for c in t["columns"] if c["pk"])
+                out.append(("hl", "pk_select", dict(table=tname, key=list(e[:min(2, npk)])), "pk_select/" + tname))
                 out.append(("hl", "pk_select", dict(table=tname, key=list(e[:1])), "pk_select1/" + tname))
         else:
             out.append(("low", "table_scan", dict(obj=tname), "table_scan/" + tname))
@@ -67,10 +68,10 @@ def add(ops, s, tpl, **extra):
 
 
 def positions(R, rnd, tier):
-    if R <= (24 if tier == "quick" else 400):
+    if R <= (24 if tier == "quick" else 120):
         return list(range(1, R + 1))
     s = set(range(1, 11)) | set(range(R - 4, R + 1))
-    s.update(rnd.sample(range(11, R - 4), 9 if tier == "quick" else 200))
+    s.update(rnd.sample(range(11, R - 4), min(R - 15, 9 if tier == "quick" else 60)))
     return sorted(s)
 
 
@@ -79,7 +80,7 @@ def run(tier):
     rnd = random.Random(common.seed())
     bf.mc_btree(v, tier, "fault")
     h = common.build_harness()
-    suite = bf.build_suite(tier, rnd, only=("A", "C") if tier == "quick" else None)
+    suite = bf.build_suite(tier, rnd, only=("A", "C", "P", "Z") if tier == "quick" else None)
     d = common.sub("c12")
     # pass 1: the clean operations (also gives the number of reads R of each)
     clean = btrace.OpSet()
@@ -102,8 +103,29 @@ def run(tier):
             add(faulty, s, tpl, fail=j, fail_mode="short" if j % 3 == 0 else "err")
             nfault += 1
         add(faulty, s, tpl, lockfail=True)
+    # a long-lived handle: an operation meets a fault, the NEXT operations on the same handle run without one. They may
+    # fail (the error may be remembered) but must never succeed with rows or schema objects missing
+    ngroups = 0
+    for s in suite:
+        if s["name"].startswith("P"):
+            continue
+        tpl_of = [tpl for (s2, tpl) in tpls if s2 is s]
+        first = [t_ for t_ in tpl_of if t_[1] in ("table_scan", "select", "index_scan", "indexed_select")][:6]
+        for tpl, it in [(t_, i_) for (s2, t_), i_ in zip(tpls, clean.items) if s2 is s and t_ in first]:
+            R = it["res"].get("reads", 0)
+            for j in positions(R, rnd, tier)[: (10 if tier == "quick" else 60)]:
+                g = "g%d" % ngroups
+                ngroups += 1
+                k = add(faulty, s, tpl, fail=j)
+                faulty.items[k].update(group=g, conf=False)
+                follow = [("list", "table"), ("list", "index")] + [("tpl", t_) for t_ in rnd.sample(tpl_of, 2)]
+                for kind, x in follow:
+                    k = faulty.add_list(s["name"], x, meta={"cls": "%s/after-fault/list-%s" % (s["name"], x)}, conf=False) if kind == "list" else add(faulty, s, x)
+                    faulty.items[k].update(group=g, conf=False, lenient=True)
+                    faulty.items[k]["h"]["id"] = k
     r2 = faulty.run(h, d, tag="c12-fault", timeout=3000)
-    bf.judge(v, "C12", suite, faulty, r2, {"fault", "lockfail"}, "fault run")
+    bf.judge(v, "C12", suite, faulty, r2, {"fault", "lockfail", "complete"}, "fault run")
+    v.cov["follow_up_sequences_on_one_handle"] = ngroups
     fired = sum(1 for it in faulty.items if it["res"].get("fired"))
     for it in faulty.items:
         if it["res"].get("fired"):
